@@ -6,16 +6,22 @@ package main
 
 // skolemizeGoal replaces universal quantifiers in positive positions of goal by fresh constants.
 func skolemizeGoal(goal *Term) (*Term, []*Term) {
+	skTuples = nil
 	var sks []*Term
 	var pos func(t *Term) *Term
 	pos = func(t *Term) *Term {
 		switch {
 		case t.Op == "forall" && t.Bound != nil:
 			sub := map[int]*Term{}
+			var tup []*Term
 			for _, b := range t.Bound {
 				sk := B.Fresh("sk."+b.Op, b.Sort)
 				sub[b.id] = sk
 				sks = append(sks, sk)
+				tup = append(tup, sk)
+			}
+			if len(tup) > 1 {
+				skTuples = append(skTuples, tup)
 			}
 			return pos(Subst(t.Args[0], sub))
 		case t.Op == "and" && t.Bound == nil:
@@ -32,10 +38,47 @@ func skolemizeGoal(goal *Term) (*Term, []*Term) {
 	return pos(goal), sks
 }
 
+// skTuples: the skolem tuples of the goal's multi-variable quantifiers (set by skolemizeGoal; the
+// discharge of one obligation is sequential).
+var skTuples [][]*Term
+
 // instantiateAt returns, for an assumption, copies in which universally quantified subformulas in
 // positive positions are replaced by their instances at the given constants (same sort).
 func instantiateAt(a *Term, sks []*Term) []*Term {
 	var out []*Term
+	// quantifiers over several variables: instantiate positionally at the skolem tuples of goal
+	// quantifiers with the same arity and sorts
+	for _, tup := range skTuples {
+		changed := false
+		var pos func(t *Term) *Term
+		pos = func(t *Term) *Term {
+			switch {
+			case t.Op == "forall" && len(t.Bound) == len(tup):
+				sub := map[int]*Term{}
+				for i, b := range t.Bound {
+					if b.Sort != tup[i].Sort {
+						return t
+					}
+					sub[b.id] = tup[i]
+				}
+				changed = true
+				return Subst(t.Args[0], sub)
+			case t.Op == "and" && t.Bound == nil:
+				na := make([]*Term, len(t.Args))
+				for i, x := range t.Args {
+					na[i] = pos(x)
+				}
+				return And(na...)
+			case t.Op == "=>" && len(t.Args) == 2:
+				return Implies(t.Args[0], pos(t.Args[1]))
+			}
+			return t
+		}
+		r := pos(a)
+		if changed {
+			out = append(out, r)
+		}
+	}
 	for _, sk := range sks {
 		changed := false
 		var pos func(t *Term) *Term
